@@ -37,10 +37,10 @@ def run(ctx):
     if ctx.tier == "thorough":
         fb = ctx.try_facts("bare")
         if fb is not None:
-            check_consume(ctx, fb, "bare", floor=6)
+            check_consume(ctx, fb, "bare", floor=3)
     from props import c17
     for cfg, fx in fxs.items():
-        check_consume(ctx, fx, cfg, floor=8)
+        check_consume(ctx, fx, cfg, floor=3)
         check_runtime(ctx, fx, cfg)
         # R18.4 detach cannot be blocked by a join in progress on any runtime: a join takes the runtime handle out of the
         # shared slot and releases the slot's lock before it waits (smol's detach takes the same lock synchronously) —
